@@ -130,8 +130,10 @@ func Dot(spec *Spec, w io.WriteCloser, fromNode, toNode string) error {
 		log.Printf("  processing %s branches: %d", name, len(n.Branches.Branches))
 		for i, b := range n.Branches.Branches {
 			if err := node(b.Target, nodes[b.Target]); err != nil {
+				// A missing (or variable) target has no node
+				// of its own, but this branch and the
+				// remaining branches still get their edges.
 				log.Printf("process branch error with %s: %v", b.Target, err)
-				return err
 			}
 			var label = "{}"
 
